@@ -161,6 +161,10 @@ def site_cases(tier):
                     if site in ('AddTermToEquation', 'AddTermToEquation-after-blob', 'AddTermToEquation-product', 'AddCashFlow-product-term', 'Equation-parsed-product') and ti != 0:
                         continue
                     cases.append((site, when, ncountry, t))
+    # the same sites through the step-wise runner (aliases are resolved once before the sectors generate their equations and once after)
+    for site in SITES:
+        for ncountry in (1, 2):
+            cases.append((site, 'before', ncountry, TEMPLATES[0], 'steps'))
     return cases
 
 
@@ -261,14 +265,15 @@ def build_site(case):
 
 
 def work_site(case):
-    site, when, ncountry, template = case
-    rec = {'plan': 'site:%s:%s:%dcountry:%s' % case, 'case': 'site', 'obs': [], 'solver_s': 0.0, 'queries': 0}
+    site, when, ncountry, template = case[:4]
+    runner = case[4] if len(case) > 4 else 'main'
+    rec = {'plan': 'site:%s:%s:%dcountry:%s' % case[:4] + (':step-wise-runner' if runner == 'steps' else ''), 'case': 'site', 'obs': [], 'solver_s': 0.0, 'queries': 0}
     try:
-        ctx, owner, local, expr, N, tsec, tloc, host, info = build_site(case)
+        ctx, owner, local, expr, N, tsec, tloc, host, info = build_site(case[:4])
     except Exception as e:
         rec['build_error'] = 'site construction failed: %r' % (e,)
         return rec
-    em = emit(ctx)
+    em = emit(ctx, runner=runner)
     if not em.text:
         rec['obs'].append({'kind': 'builds', 'what': 'main() raises %r' % (em.err,), 'verdict': 'sat', 'detail': {'error': repr(em.err)}})
         return rec
